@@ -63,9 +63,10 @@ bool check_level_sizes(const Index &idx, size_t n, size_t eps, size_t epsrec, co
         below = segs;
     }
     if (epsrec > 0) {
-        // the top level has exactly one real segment
+        // the recursion goes on until the top level can be searched within one window (the library stops at one real
+        // segment; stopping earlier, at a level that fits into 2*EpsRec+3 positions, would keep C07 as well)
         size_t top = offs[offs.size() - 1] - offs[offs.size() - 2];
-        if (top > 3) { out.fail("level-structure", "top level has " + std::to_string(top) + " entries"); return false; }
+        if (top > std::max<size_t>(3, 2 * epsrec + 3 + 1)) { out.fail("level-structure", "top level has " + std::to_string(top) + " entries: more than one search window"); return false; }
     }
     return true;
 }
